@@ -22,8 +22,10 @@ def run(ck, prog):
         "increment, #endif decrements above depth 1, #else/#endif end the skip exactly at depth 1, Eof reports "
         "and stops, everything else is neutral; (R15.5) take_error prefers the preprocessor's own slot; "
         "(R15.6) a macro is defined only by process_define, and process_if consults the macro set with the "
-        "name it just read. Not decided: that the tokens selected equal a reference evaluation for every "
-        "arrangement (a property of the composed state machine), an *enabled* unterminated #ifdef.")
+        "name it just read; (R15.7) necessary conditions for reporting a conditional whose *enabled* branch runs to the "
+        "end of the file: the path of process_if that lets the text through records something in the preprocessor's "
+        "state, and next_token has a path on Eof that returns self.error(..). Not decided: that the tokens selected "
+        "equal a reference evaluation for every arrangement (a property of the composed state machine).")
     ck.trusted = ["TokenStream contract of the inner lexer"]
     for r, t in (("R15.1", "token kinds produced by error()/helpers reach the caller's return value"),
                  ("R15.2", "directive without macro name => error"),
@@ -180,6 +182,61 @@ def run(ck, prog):
         ok = all(x[0] == "call" and (x[1] == TS + "text") for x in o)
     ck.ob("R15.6", "lookup-by-name", ok, "process_if looks the macro up by the text of the token it just read",
           msg="process_if no longer consults the macro set with the directive's own macro name")
+    enabled_unterminated(ck, prog)
+
+
+def enabled_unterminated(ck, prog):
+    """R15.7 (see explanation)."""
+    ck.rule("R15.7", "an enabled conditional left open at end of file can be reported: opening it is recorded, Eof consults it")
+    pi = prog.body(PP + "process_if")
+    nt = prog.body(PP + "next_token")
+    ck.anchor(pi is not None and nt is not None, "process_if / next_token not found")
+    # (a) every path of process_if that returns the PreProcessor kind itself (text let through: no skip, no error)
+    #     writes preprocessor state
+    n = 0
+    ok_all = True
+    for p in paths.enum_paths(pi, prog):
+        if p.end != "return" or not p.ret or p.ret[0] != "rv":
+            continue
+        d = paths.describe_result(prog, p.ret)
+        if d[0] != "variant" or d[2] != "PreProcessor":
+            continue
+        n += 1
+        wrote = False
+        mutrefs = set()
+        for e in p.events:
+            if e[0] == "assign":
+                a = e[2]["a"]
+                rv = e[2]["rv"]
+                if a["l"] == 1 and a["p"] and a["p"][0] == "*" and len(a["p"]) > 1:
+                    wrote = True
+                if isinstance(rv, dict) and "ref" in rv and rv.get("mut") and rv["ref"]["l"] == 1 and len(rv["ref"]["p"]) > 1:
+                    mutrefs.add(a["l"])
+            elif e[0] == "call":
+                for arg in e[2]["args"]:
+                    l = op_local(arg)
+                    if l in mutrefs:
+                        wrote = True
+        ok_all = ok_all and wrote
+    ck.ob("R15.7", "open-recorded", n > 0 and ok_all,
+          "%d path(s) of process_if let the text through; each writes a field of the preprocessor" % n,
+          msg="process_if lets the text of an enabled conditional through without recording anything in the preprocessor: a "
+              "conditional whose enabled branch runs to the end of the file (`#define A` `#ifdef A` .. EOF, `#ifndef B` .. EOF) can "
+              "never be reported")
+    # (b) next_token: some path taken on the Eof kind returns self.error(..)
+    eofd = None
+    for v in prog.adts[TOKENKIND]["variants"]:
+        if v["name"] == "Eof":
+            eofd = v["discr"]
+    found = False
+    for p in paths.enum_paths(nt, prog):
+        if p.end != "return":
+            continue
+        on_eof = any(e[0] == "branch" and e[2].kind == "discr" and e[3] == eofd for e in p.events)
+        if on_eof and p.ret and p.ret[0] == "call" and (Body.callee(p.ret[1]) or "").endswith("::error"):
+            found = True
+    ck.ob("R15.7", "eof-consults-state", found, "next_token has a path on Eof that returns self.error(..)",
+          msg="next_token hands Eof on unconditionally: an open conditional is never reported at the end of the file")
 
 
 def local_flows_to_return(b, l):
